@@ -18,6 +18,8 @@ WORKLOADS = {
     "c11": _lazy("race", "run_c11"),
     "c12": _lazy("reapfail", "run_c12"),
     "c10": _lazy("crash", "run_c10"),
+    "c01": _lazy("sweep", "run_c01"),
+    "c05": _lazy("harvest", "run_c05"),
 }
 
 REAL_VS_STUB = {
@@ -35,7 +37,7 @@ REAL_VS_STUB = {
 UNDER_CONSTRUCTION = "simulation target (see DESIGN.md section 3); check not built yet in this snapshot"
 
 NOT_APPLICABLE = {
-    "C01": UNDER_CONSTRUCTION, "C05": UNDER_CONSTRUCTION, "C06": UNDER_CONSTRUCTION,
+    "C06": UNDER_CONSTRUCTION,
  
     "C15": UNDER_CONSTRUCTION,
     "C16": UNDER_CONSTRUCTION,
@@ -187,6 +189,47 @@ PROPS = {
                     "buffer size, write splitting); evaluations counts scenarios, workload_stats.crashes counts "
                     "kill executions; non-trivial = every scenario (each enumerates >= 1 crash site); distinct = "
                     "distinct (victim, farmer, N, batches, kind, number of sites).",
+        },
+    },
+    "C01": {
+        "workload": "c01", "level": "exploration",
+        "quick": 12000, "thorough": 400000,
+        "technique": "deterministic simulation of the worker pool: combo_runner driven through SimExecutor "
+                     "(submit / apply_async / multiprocessing.Pool flavours, thread or process boundary) whose start "
+                     "and completion order the seeded tape decides; call-log and reference-model oracles",
+        "level_text": "Seeded exploration over grids (1-5 arguments, 1-4 values, int/float/str, three spellings, "
+                      "optional case lists), constants, result kinds, split/flat, and 2-4 execution strategies per grid "
+                      "(sequential, shuffle seeds, parallel=True/int, num_workers, every executor flavour) under "
+                      "tape-chosen start/completion orders (FIFO window of 1-4 workers, or unordered). The call log "
+                      "must be exactly the requested settings once each; every slot must hold its own value.",
+        "level_note": "The pools themselves (loky, multiprocessing, concurrent.futures internals) are replaced by "
+                      "SimExecutor; their scheduling is what the simulator decides. Completion orders are sampled.",
+        "evidence": {
+            "rule": "each run draws one grid and 2-4 strategies with their own completion schedules; non-trivial = "
+                    "at least 2 settings; distinct = distinct (N, #axes, kind, per-strategy (kind, flavour, boundary, "
+                    "completion inversions (capped), lazy start, shuffle, split, flat)).",
+        },
+    },
+    "C05": {
+        "workload": "c05", "level": "exploration",
+        "quick": 2400, "thorough": 60000,
+        "technique": "deterministic simulation: seeded harvest histories (harvest_combos / harvest_cases / add_ds / "
+                     "save_merge_ds / drop_sel / expand_dims / new session) by simulated processes over one data "
+                     "name, against a dict model (variable, coordinates) -> value with the three overwrite "
+                     "policies; memory and a fresh process's load_ds are compared with the model after every step",
+        "level_text": "Seeded exploration of histories of length 1-8 over overlapping and disjoint coordinate sets, "
+                      "three overwrite policies per step, function versions that agree or conflict, sync on/off, "
+                      "engines h5netcdf and joblib, data names with and without extension, a new Harvester at any "
+                      "step. A conflict under the default policy must raise and leave memory and disk unchanged; "
+                      "otherwise every acknowledged point holds the policy-decided value in memory and on disk and "
+                      "nothing un-harvested appears.",
+        "level_note": "sync=False harvests are un-acknowledged (documented meaning of sync): they use their own "
+                      "coordinate region and may later be present or absent, never wrong. drop_sel/expand_dims are "
+                      "only issued when the session's memory is in sync.",
+        "evidence": {
+            "rule": "each run draws result kind, engine, extension, coordinate type and 1-8 operations with their "
+                    "coordinates, version, policy and sync flag; non-trivial = at least 2 operations; distinct = "
+                    "distinct (kind, engine, extension, operation sequence with arguments).",
         },
     },
 }
